@@ -380,6 +380,14 @@ def gen_fmt(rng: random.Random, d: dict, rich: bool = True) -> dict:
         f["trail"] = rng.choice([" ", "\t", "  \t"])
     if rng.random() < 0.5:
         f["doc_same"] = False
+    if rng.random() < 0.2:
+        f["tight_hash"] = True
+    if rng.random() < 0.2:
+        f["sat_x"] = True
+    if rng.random() < 0.2:
+        f["numx"] = rng.randrange(7)
+    if len(d["secs"]) == 2 and rng.random() < 0.3:
+        f["marker"] = rng.choice(["----", "-----", "------------------------------"])
     if rng.random() < 0.5:
         f["seal_first"] = True
     if rng.random() < 0.5:
